@@ -5,5 +5,5 @@ cd /repo
 python3 /verif/tools/run_suite.py
 git add -- $(git diff --name-only | grep '\.py$')
 git commit -q -m "$MSG"
-git checkout -- .
+git --no-replace-objects checkout -- .
 git log --oneline | head -1
